@@ -415,5 +415,52 @@ def file_order_names(path):
     return out
 
 
+def _plain(v):
+    """ruamel containers / numbers -> plain JSON-able value (for fingerprints)"""
+    if isinstance(v, dict):
+        return {str(k): _plain(x) for k, x in v.items()}
+    if isinstance(v, (list, tuple)):
+        return [_plain(x) for x in v]
+    if isinstance(v, bool) or v is None:
+        return v
+    if isinstance(v, (int, float)):
+        return float(v)
+    return str(v)
+
+
+def entry_fingerprint(throughput, latency, port_pressure):
+    import json
+
+    return json.dumps([_plain(throughput), _plain(latency), _plain(port_pressure)], sort_keys=True)
+
+
+def file_order_fingerprints(path):
+    """[fingerprint] of every instruction-form entry in FILE order (same indexing as file_order_names):
+    throughput, latency and port_pressure read from the entry's own text lines.  Used to identify a
+    loaded entry with its entry in the file WITHOUT assuming anything about the order the loader keeps."""
+    import ruamel.yaml
+
+    y = ruamel.yaml.YAML(typ="safe", pure=True)
+    out, cur = [], None
+    with open(path) as f:
+        for line in f:
+            if line.startswith("- name:"):
+                if cur is not None:
+                    out.append(cur)
+                cur = {}
+                continue
+            if cur is None:
+                continue
+            for key in ("throughput", "latency", "port_pressure"):
+                if line.startswith("  %s:" % key) and key not in cur:
+                    try:
+                        cur[key] = y.load(line.split(":", 1)[1].split(" #")[0])
+                    except Exception:  # noqa
+                        cur[key] = "unparsable"
+    if cur is not None:
+        out.append(cur)
+    return [entry_fingerprint(c.get("throughput"), c.get("latency"), c.get("port_pressure")) for c in out]
+
+
 def chars(name):
     return list(name)
